@@ -46,3 +46,8 @@ func (c *Channel) VerifOnHandshake() { c.onHandshake() }
 func VerifConstants() (nonceInitHello_, nonceRespHello_, nonceInitDone_, nonceRespDone_, noncePostHandshake_ uint32, purposeCB, purposeTS string) {
 	return nonceInitHello, nonceRespHello, nonceInitDone, nonceRespDone, noncePostHandshake, purposeChannelBinding, purposeTimestamp
 }
+
+// VerifTimersPending reports whether the rekey timer and the handshake timer are armed.
+func (c *Channel) VerifTimersPending() (rekey, handshake bool) {
+	return c.rekeyTimer.IsPending(), c.handshakeTimer.IsPending()
+}
